@@ -44,6 +44,9 @@ func VH_C17_Stack(p []int) {
 		for _, r := range res {
 			vhAssertZeroResult(r, "zero-result")
 		}
+		if (m.name == "Stack.IsEqual" || m.name == "Stack.Valid") && len(res) == 1 {
+			verifAssert(res[0] != nil, "zero-instance-reports-an-error")
+		}
 		verifAssert(s.IsZero(), "stays-zero")
 		verifAssert(!s.IsInit(), "stays-uninitialised")
 	}
@@ -90,6 +93,10 @@ func VH_C17_Cond(p []int) {
 	if p[1] < 2 && m.name != "Condition.Init" {
 		for _, r := range res {
 			vhAssertZeroResult(r, "zero-result")
+		}
+		if (m.name == "Condition.IsEqual" || m.name == "Condition.Valid") && len(res) == 1 {
+			// an instance that holds nothing is neither valid nor equal to anything
+			verifAssert(res[0] != nil, "zero-instance-reports-an-error")
 		}
 		verifAssert(c.IsZero(), "stays-zero")
 	}
